@@ -1288,7 +1288,8 @@ fn classical_declaration_statement_to_asg_stmt(
         // Also literals are probably treated differently.
         // Is this in the spec, or somewhat up to the implementation?
         if types::equal_up_to_constness(&lhs_type, init_type) {
-            return asg::DeclareClassical::new(symbol_id, Some(initializer)).to_stmt();
+            // No cast is needed. (The helper records the value of a constant.)
+            return declare_classical_helper(symbol_id, Some(initializer), context);
         }
         // From this point, we need to cast, if possible.
         // So, we either cast, or record an error saying types are incompatible.
